@@ -34,6 +34,14 @@ def _ensure_integer_ids(df: pd.DataFrame) -> pd.DataFrame:
         id_mapping = {
             original_id: new_id for new_id, original_id in enumerate(unique_ids, start=1)
         }
+        # a parent that is neither empty (no parent) nor a known id is a broken link
+        parents = df["parent_id"]
+        no_parent = parents.isna() | parents.isin(["", -1, "-1"])
+        unknown = parents[~no_parent & ~parents.isin(list(id_mapping))]
+        if len(unknown) > 0:
+            raise ValueError(
+                f"parent_id values {unknown.unique().tolist()} do not refer to any id"
+            )
         df["id"] = df["id"].map(id_mapping)
         df["parent_id"] = df["parent_id"].map(id_mapping).astype(pd.Int64Dtype())
 
